@@ -88,7 +88,7 @@ Files ==
                          \cup {L(i.label, i.tree) : i \in PragmaFiles}
                          \cup StmtFamily({I("destruct:position", "S", DestructStmt)})
       [] Prop = "C08" -> ExprFamily(WriteInst) \cup DeclFamily(VarProduct \cup CalldataFns \cup CalldataTwo)
-                         \cup {L(i.label, i.tree) : i \in ImmFiles}
+                         \cup {L(i.label, i.tree) : i \in ImmFiles \cup CalldataSeqFiles}
 
 VARIABLES file
 Init == file \in Files
